@@ -79,6 +79,10 @@ func frozenWriters(b *roaring.Bitmap, execs *int64) ([]byte, *ev.Fail) {
 }
 
 func runC13(c *Ctx) {
+	if c.Replay != nil && c.Replay.Scenario == "view retains buffer" {
+		replayCaged(c, "C13retain")
+		return
+	}
 	q := c.Quick()
 	corpus := corpus32(q)
 	var execs, wexecs, sexecs int64
@@ -256,4 +260,65 @@ func runC13(c *Ctx) {
 		}, Describe: func(idx []int) any { return sub[idx[0]].Name }}
 	c.R.Assume("GC events are explicit (runtime.GC twice) and the process runs with GODEBUG=clobberfree=1 so that a freed object is overwritten deterministically")
 	runScenarios(c, p1, p2, p3, corpusReadback(c, "corpus construction: FrozenView(Freeze())", "Freeze"))
+	if c.Replay == nil {
+		// a live view must keep validating and keep its contents when the view is the only thing that still refers to
+		// the buffer. Decided in the subprocess cage: check.sh sets GODEBUG=clobberfree=1 for this property, so a freed
+		// buffer is overwritten at once and the runtime itself may stop the process ("found pointer to free object").
+		runCagedFamily(c, "C13retain", "view retains buffer", "a frozen view alone keeps its buffer reachable: the caller drops the buffer, GC runs, allocations follow (subprocess cage)")
+	}
+}
+
+// viewOnly returns a frozen view of b whose buffer is referenced by nothing but the view.
+//
+//go:noinline
+func viewOnly(b *roaring.Bitmap, must bool) (*roaring.Bitmap, int, error) {
+	fz, err := b.Freeze()
+	if err != nil {
+		return nil, 0, err
+	}
+	buf := shapes.Aligned(fz)
+	v := roaring.New()
+	if must {
+		err = v.MustFrozenView(buf)
+	} else {
+		err = v.FrozenView(buf)
+	}
+	return v, len(buf), err
+}
+
+func init() {
+	CageFamilies["C13retain"] = func(tier string) (int, func(id int) string) {
+		// (not the closure corpus: every cage worker builds its own case list, and must do so well within the watchdog)
+		q := tier != "thorough"
+		corpus := append(append(l1Pool(1, q), mixedPool(q)...), l3Pool(true)...)
+		return 2 * len(corpus), func(id int) string {
+			src := corpus[id/2].Build()
+			defer runtime.KeepAlive(src)
+			if src.M.Card() > 1<<22 {
+				return "ok skipped-large"
+			}
+			name := []string{"FrozenView", "MustFrozenView"}[id%2]
+			v, size, err := viewOnly(src.B, id%2 == 1)
+			if err != nil {
+				return fmt.Sprintf("VIOL %s(Freeze()) failed [%s]: %v", name, corpus[id/2].Name, err)
+			}
+			var junk [][]byte
+			for i := 0; i < 3; i++ {
+				runtime.GC()
+				b := make([]byte, size)
+				for j := range b {
+					b[j] = 0xA5
+				}
+				junk = append(junk, b)
+			}
+			defer runtime.KeepAlive(junk)
+			if got := extract.Of(v); !got.Equal(src.M) {
+				return fmt.Sprintf("VIOL after the caller dropped the buffer and the collector ran, the %s no longer holds its contents [%s]: %s", name, corpus[id/2].Name, diff32(got, src.M))
+			}
+			if err := v.Validate(); err != nil {
+				return fmt.Sprintf("VIOL after the caller dropped the buffer and the collector ran, the %s fails Validate() [%s]: %v", name, corpus[id/2].Name, err)
+			}
+			return "ok"
+		}
+	}
 }
